@@ -393,6 +393,9 @@ def c19(res, tier, seed):
     scanmod.run_chunks(res, "C19", execs, "asan", "c19_scan")
     # (3) a rule set large enough to grow the default 1 MiB buffers == the same rules compiled in groups
     big_check(res, r, wd, tier)
+    # (4) a few hundred rules under tiny capacities: the Aho-Corasick tables, the code and the string pool relocate many times
+    #     while they are being filled (ahocorasick.c _yr_ac_build_transition_table, parser.c)
+    medium_check(res, r, wd, tier, caps)
     res.cov["rule"] = ("(1) 7 corpus rule sets compiled with initial arena capacities %s (capacity 1: every allocation relocates) under ASan: saved bytes equal the default's; "
                        "(2) random conditions and scanner-protocol rule sets compiled under capacities 1/8/64, judged by Cond / Scan specs; (3) a generated rule set "
                        "exceeding 1 MiB per buffer compared with the same rules compiled in groups; distinct = (case, capacity)" % caps)
@@ -401,6 +404,33 @@ def c19(res, tier, seed):
 
 def make_records_cap(res, groups, metas, wd, cap):
     return cond.make_records(res, "C19", [dict(g, pre=["__opt arenasize %d" % cap] + list(g.get("pre", ()))) for g in groups], metas, wd, "c19_cond_%d" % cap)
+
+
+def medium_check(res, r, wd, tier, caps):
+    exe = yv.driver("asan")
+    n = 400 if tier == "quick" else 1500
+    def rule_src(i):
+        return ('rule r%d { strings: $a = "K%dQ%dxyz" $b = { 4B %02X ?? 51 %02X } $c = /q%dw[0-9]+z/ condition: $a or $b or $c }' % (i, i, i * 7, i % 256, (i * 3) % 256, i))
+    src = "\n".join(rule_src(i) for i in range(n)).encode()
+    data = b" ".join(b"K%dQ%dxyz" % (i, i * 7) for i in range(0, n, 13)) + b" K\x05zQ\x0f q3w77z q%dw1z" % (n - 1)
+    results = {}
+    for cap in [0] + list(caps):
+        lines = ["init"] + (["opt arenasize %d" % cap] if cap else []) + ["opt logmatches 0", "opt quietnomatch 1", "compiler 0", "add 0 - " + yv.hx(src), "getrules 0 0", "cdestroy 0",
+                 "scanner 0 0", "data 1 " + yv.hx(data), "scan 0 1 mem - - -", "sdestroy 0", "rdestroy 0", "finalize"]
+        run = yv.run_script(exe, lines, wd, name="c19_medium_%d" % cap, hang=300, timeout=900)
+        res.count(1, ("medium", n, cap))
+        if not run.complete:
+            res.violation("compiling / scanning %d rules with initial arena capacity %s failed: %s" % (n, cap or "default", yv.crash_summary(run)),
+                          yv.save_replay("C19", "medium_crash_%d" % cap, {"crash": yv.crash_summary(run), "script": run.script_path}))
+            continue
+        results[cap] = sorted(e["rule"] for e in run.events if e["e"] == "Cb" and e["msg"] == "match")
+        res.cov["traces_validated_against_impl"] += 1
+    for cap, got in results.items():
+        if 0 in results and got != results[0]:
+            res.violation("%d rules compiled with initial arena capacity %d match a different set of rules than with the default capacity: only default %s, only small %s" % (
+                n, cap, sorted(set(results[0]) - set(got))[:5], sorted(set(got) - set(results[0]))[:5]), yv.save_replay("C19", "medium_diff_%d" % cap, {"default": results[0][:50], "small": got[:50]}))
+    if 0 in results and len(results[0]) < n // 13:
+        raise yv.Broken("the medium rule set matched only %d rules: the planted data does not do its job" % len(results[0]))
 
 
 def big_check(res, r, wd, tier):
